@@ -11,6 +11,9 @@
      (row finder auto / on / off; model Estimate.estimateUsingCCtxParams, block size tied), used with exactly c at source sizes around every power of two
      up to the window (where ZSTD_adjustCParams re-resolves the logs and the match-finder flavour) under the three row-finder settings:
      every use must fit, its reservations are tied to the model, and the hypothesis of Props.C14.usingCParams_covers is evaluated on it;
+ (7) histories over one decoding context and a pool of DDicts (tools/ddset.py, harness/zvh_ddset.c): ZSTD_sizeof_DCtx against the context's counting allocator
+     while the multiple-DDict set is created, grows over its expansion points and is dropped; static decoding contexts (block zeroed / NOT zeroed by the
+     caller) x every entry point that needs an internal DDict: memory_allocation, never an allocator call, and referencing a caller-owned DDict keeps working;
  (6) hand-written frame headers (1-, 2-, 4- and 8-byte content sizes of single-segment frames up to 2^64-1, every window descriptor incl.
      those above ZSTD_WINDOWLOG_MAX) x limits set three ways: the Lean model parses the header itself and decides (Props.C14.refused_iff,
      huge_window_refused); refusals must carry the window verdict and no allocator request may exceed ZSTD_estimateDStreamSize(limit)."""
@@ -526,6 +529,11 @@ def correspondence(ctx):
         if re.search(r"leaks=[1-9]", o):
             ctx.violation("object freed but allocations remain: %s -> %s" % (ln[:160], o), dict(kind="monitor", op=ln, result=o))
     ev += len(sl); distinct |= set(sl)
+    # ---------- the multiple-DDict set in ZSTD_sizeof_DCtx; static decoding contexts and the entry points that would need an internal DDict ----------
+    import ddset
+    dsl = ddset.run(ctx, "C14", dict(sizeof=ddset.gen_sizeof(rng, 30 if quick else 400), static=ddset.gen_static(rng, 40 if quick else 600)),
+                    only=dict(sizeof={"sizeof", "crash", "leak", "short"}))
+    ev += len(dsl); distinct |= set(dsl)
     # ---------- static dictionaries of exactly the estimated size ----------
     dl2 = ["sdict %d %d %d %d" % (rng.choice([1, 3, 5, 9, 13, 19]), rng.choice([0, 1, 7, 8, 9, 63, 100, 1001, 4093, 65537, 112640]) + rng.randint(0, 7), rng.randint(0, 1), rng.randrange(1 << 30)) for _ in range(90 if quick else 1500)]
     outs3 = frames.parallel(lambda ch: frames.run_lines(exe_m, ch, timeout=3000)[1], frames.split_chunks(dl2, 16))
@@ -604,6 +612,9 @@ def correspondence(ctx):
 
 def replay(ctx, data):
     op = data.get("op", "")
+    if op.startswith("ddh "):
+        import ddset
+        return ddset.replay(ctx, data)
     if op.startswith("ws") or op.startswith("est"):
         rc, out, err = frames.run_lines(hx_ws(), [op])
     else:
